@@ -75,6 +75,7 @@ impl Item {
 
 fn items(prop: &str) -> Option<Vec<Item>> {
     Some(match prop {
+        "C01" => race::c08(),
         "C02" => sims::c02(),
         "C03" => sims::c03(),
         "C04" => sims::c04(),
